@@ -84,6 +84,23 @@ fn at_data_access(rig: &Rig) -> Option<u8> {
     }
 }
 
+/// Is the instruction about to execute a status poll of KBSR (0) / DSR (1)?
+fn at_status_poll(rig: &Rig) -> Option<usize> {
+    let pc = rig.sim.pc;
+    let w = rig.sim.mem[pc].get();
+    match isa::dec(w).ok()? {
+        MInstr::Ldi { off, .. } => {
+            let cell = pc.wrapping_add(1).wrapping_add(off as u16);
+            match rig.sim.mem[cell].get() {
+                crate::model::cpu::KBSR => Some(0),
+                crate::model::cpu::DSR => Some(1),
+                _ => None,
+            }
+        }
+        _ => None,
+    }
+}
+
 /// Runs the program under the lock schedule. Returns (output, consumed-all, excluded holds, overlapped).
 fn run_case(c: &Case, exclude_known: bool, st: &mut Stats) -> Result<Option<(Vec<u8>, Vec<u8>, bool)>, String> {
     let mut spec = MachineSpec::default();
@@ -96,6 +113,10 @@ fn run_case(c: &Case, exclude_known: bool, st: &mut Stats) -> Result<Option<(Vec
     let kb = rig.kbd.clone().unwrap();
     let ds = rig.display.clone().unwrap();
     let mut overlapped = false;
+    // was the device's lock held while its status register was polled last?  The known finding is a lock that is
+    // free at the ready poll and taken just before the data access; a lock that was already held at the poll makes
+    // a correct device answer "not ready", so holding it through the data access is a legitimate schedule.
+    let mut held_at_last_poll = [false, false];
     for step in 0..60_000usize {
         let mut lock_k = false;
         let mut lock_d = false;
@@ -107,16 +128,23 @@ fn run_case(c: &Case, exclude_known: bool, st: &mut Stats) -> Result<Option<(Vec
         }
         if exclude_known {
             match at_data_access(&rig) {
-                Some(0) if lock_k => {
+                Some(0) if lock_k && !held_at_last_poll[0] => {
                     lock_k = false;
                     st.excluded_known += 1;
                 }
-                Some(1) if lock_d => {
+                Some(1) if lock_d && !held_at_last_poll[1] => {
                     lock_d = false;
                     st.excluded_known += 1;
                 }
+                Some(0) if lock_k => st.class("hold-from-poll-through-data-access"),
+                Some(1) if lock_d => st.class("hold-from-poll-through-data-access"),
                 _ => {}
             }
+        }
+        match at_status_poll(&rig) {
+            Some(0) => held_at_last_poll[0] = lock_k,
+            Some(1) => held_at_last_poll[1] = lock_d,
+            _ => {}
         }
         let io_step = {
             let w = rig.sim.mem[rig.sim.pc].get();
